@@ -113,8 +113,8 @@ def duration_ratio(t):
     m = re.search(r'std::chrono::duration<[^,]+, (std::ratio<\d+, \d+>)>', t)
     if m:
         return _RATIO.get(m.group(1))
-    if 'std::chrono::duration<' in t:
-        return None
+    if re.search(r'std::chrono::duration<[^,<>]+>', t):
+        return 1, 1            # the period defaults to std::ratio<1>
     return None
 
 
@@ -201,6 +201,10 @@ class Interp:
             st.cons.add_le(s - hi)
         return s
 
+    def fresh_len(self, st):
+        """Unknown container length: at most PTRDIFF_MAX (max_size of every standard container)."""
+        return self.fresh(st, 'len', 'unsigned long', hi=(1 << 63) - 1)
+
     def fresh_for_type(self, st, t, hint='v'):
         """A value about which nothing is known except its type."""
         if t is None:
@@ -217,11 +221,11 @@ class Interp:
             return Obj(b)
         if tt.startswith(('std::vector<', 'std::basic_string<', 'std::deque<')):
             b = 'buf_%s%d' % (hint, next(self._sym))
-            st.lens[b] = self.fresh(st, 'len', 'unsigned long', hi=(1 << 62))
+            st.lens[b] = self.fresh_len(st)
             return Obj(b)
         if tt.startswith(('std::span<', 'std::basic_string_view<')):
             b = 'buf_%s%d' % (hint, next(self._sym))
-            ln = self.fresh(st, 'len', 'unsigned long', hi=(1 << 62))
+            ln = self.fresh_len(st)
             st.lens[b] = ln
             return Span(b, 0, ln)
         if tt.startswith('std::optional<'):
@@ -546,7 +550,12 @@ class Interp:
         if tt.startswith('const ') and int_type(tt.replace('const ', '').strip()) is not None and isinstance(off, Lin):
             key = (buf, off.key())
             if key not in st.mem:
-                st.mem[key] = self.fresh(st, 'm', tt.replace('const ', '').strip())
+                # deterministic name: the same location read on two paths is the same symbol (joins then keep relations)
+                sym = Lin.sym('m[%s%s%r]' % (buf, '+' if True else '', off))
+                r = type_range(tt.replace('const ', '').strip())
+                st.cons.add_le(Lin.const(r[0]) - sym)
+                st.cons.add_le(sym - r[1])
+                st.mem[key] = sym
             return st.mem[key]
         return self.fresh_for_type(st, t, 'elem')
 
